@@ -29,6 +29,28 @@ class StubForcing:
         pass
 
 
+class PassThroughForcing:
+    """a user's thin wrapper around another forcing module (adds nothing): every call is handed on with whatever
+    positional and keyword arguments it came with"""
+
+    def __init__(self, inner):
+        self.inner = inner
+        self.variables = inner.variables
+
+    @property
+    def calls(self):
+        return self.inner.calls
+
+    def update(self, *args, **kwargs):
+        return self.inner.update(*args, **kwargs)
+
+    def velocity(self, *args, **kwargs):
+        return self.inner.velocity(*args, **kwargs)
+
+    def close(self, *args, **kwargs):
+        return self.inner.close(*args, **kwargs)
+
+
 class StubGrid:
     """land-free rectangular grid with a prescribed (possibly anisotropic) metric"""
 
